@@ -1,5 +1,5 @@
 """C14 — diagnostics name the right file and line."""
-from analysis import mir, q
+from analysis import mir, q, panics
 from analysis.mir import norm, callee, callee_def, callee_names, prov
 from . import spans
 
@@ -246,6 +246,56 @@ def line_rules(P, chk):
 BYTE_PREFIX = {"split_at", "split_at_checked", "get", "get_unchecked", "index", "split_at_unchecked", "take"}
 
 
+def _counting_loop(b, cut):
+    """the explicit form: `let mut n = 1; for byte in prefix { if *byte == b'\\n' { n += 1 } } n`"""
+    rs = prov(b, {"k": "copy", "place": {"l": 0, "p": []}})
+    # the returned local: started at 1, otherwise only ever incremented by 1
+    consts = [r for r in rs if r.kind == "const"]
+    incs = [r for r in rs if r.kind == "op" and r.name in ("Add", "AddWithOverflow")]
+    if len(rs) != len(consts) + len(incs) or len(consts) != 1 or len(incs) != 1 or panics.const_root_int(consts[0]) != 1:
+        return False, None
+    inc = incs[0]
+    okinc = False
+    for st in b.blocks[inc.site]["stmts"]:
+        if st["k"] == "assign" and st["rv"]["k"] == "binop" and st["rv"]["op"] == inc.name:
+            l, r = st["rv"]["l"], st["rv"]["r"]
+            one = [x for x in (l, r) if x.get("k") == "const" and x.get("int") == 1]
+            other = [x for x in (l, r) if x.get("k") != "const"]
+            if len(one) == 1 and len(other) == 1 and set((x.kind, x.name, x.site) for x in prov(b, other[0])) == set((x.kind, x.name, x.site) for x in rs):
+                okinc = True
+    if not okinc:
+        return False, "the counter is not incremented by exactly 1"
+    loops = [blks for h, blks in b.loops().items() if inc.site in blks]
+    if not loops:
+        return False, "the counter is not incremented inside a loop"
+    blks = min(loops, key=len)
+    nx = [x for x in blks if b.term(x)["k"] == "call" and callee_def(b.term(x)) == "std::iter::Iterator::next"]
+    if len(nx) != 1:
+        return False, "the counting loop has %d next() calls" % len(nx)
+    ch = q.chains(b, b.term(nx[0])["args"][0], stop=lambda r: r.kind == "call" and r.site == cut[0])
+    names = [short(n) for cn, r in ch for n in cn]
+    okp = bool(ch) and all(r.kind == "call" and r.site == cut[0] for cn, r in ch) and \
+        not set(names) & {"skip", "rev", "step_by", "take_while", "skip_while", "chars", "lines", "filter", "take", "enumerate"}
+    half_ok = True
+    if cut[2].startswith("split_at"):
+        half_ok = set(r.fields[:1] for cn, r in ch) == {("0",)}
+    # the increment happens exactly on `element == b'\n'`
+    nl = False
+    for a in mir.guards_at(b, inc.site):
+        if a.kind == "cmp" and a.subject[0] == "Eq" and a.label == (True,):
+            lo, ro = a.subject[3]
+            sides = [lo, ro]
+            c10 = [x for x in sides if x.get("k") == "const" and x.get("int") == 10]
+            el = [x for x in sides if x.get("k") != "const"]
+            if len(c10) == 1 and len(el) == 1 and q.all_roots(b, el[0], lambda r: r.kind == "call" and r.site == nx[0]):
+                nl = True
+    only = True
+    for x in blks:
+        for (sb, tb, kind, subject, labs) in []:
+            pass
+    return okp and half_ok and nl, "counting loop over the prefix=%s (prefix half=%s), incremented exactly on == b'\\n'=%s" % (okp, half_ok, nl)
+
+
 def line_number_rule(P, chk):
     b = P.body(CLN)
     chk.analysed(b)
@@ -325,7 +375,8 @@ def line_number_rule(P, chk):
         ok = okp and okf and nl and half_ok
         detail = "counts over the prefix=%s (prefix half=%s), plain filter=%s, predicate is == b'\\n'=%s" % (okp, half_ok, okf, nl)
     else:
-        ok = False
+        ok, d2 = _counting_loop(b, cut)
+        detail = d2 or detail
     chk.require(ok, R_LINE, "compute_line_number|1 + newlines before pos", b.loc(), detail, "1 + prefix.iter().filter(|x| **x == b'\\n').count()")
 
 
@@ -408,35 +459,49 @@ def span_rules(P, chk):
             key = "%s|%s.%s from the posting in hand" % (b.key, rv["variant"], f["name"])
             chk.require(good, R_SPAN, key, b.loc(bb), "; ".join(why) or "no provenance", "x.span() of a part of the function's own posting / exchange argument")
     chk.floor("TrackedSpan fields stored in BookKeepError values", n, 6)
-    # resolve / clip
-    rz = P.body("okane_core::parse::adaptor::ParsedSpan::resolve")
+    # resolve / clip: judged on resolve with clip (when it is a function of its own) folded in
+    from analysis import inline
+    P.body("okane_core::parse::adaptor::ParsedSpan::resolve")
+    rz = inline.inlined(P, "okane_core::parse::adaptor::ParsedSpan::resolve", inline.only_policy(("::parse::adaptor::clip",)))
     chk.analysed(rz)
-    clips = [(bb, t) for bb, t in rz.calls() if short(callee_def(t)) == "clip"]
-    ok = len(clips) == 1 and q.all_roots(rz, clips[0][1]["args"][0], lambda r: q.is_param(r, "self", ("0",))) and \
-        bool(q.chains(rz, clips[0][1]["args"][1])) and all(q.is_param(r, "span") for cn, r in q.chains(rz, clips[0][1]["args"][1]))
-    chk.require(ok, R_SPAN, "ParsedSpan::resolve|clip(entry span, tracked span)", rz.loc(), "clip arguments: %s" % ([mir.prov_strs(rz, a) for a in clips[0][1]["args"]] if clips else "?"),
-                "clip(self.0, span.as_range())")
-    cl = P.body("okane_core::parse::adaptor::clip")
-    chk.analysed(cl)
-    rng, rest = spans.range_aggregates(cl, {"k": "copy", "place": {"l": 0, "p": []}})
+    import re as _re
+
+    def leaf(t):
+        return tuple(_re.sub(r" via\[[^\]]*\]", "", x) for x in t[1]) if t[0] == "place" else None
+    rng, rest = spans.range_aggregates(rz, {"k": "copy", "place": {"l": 0, "p": []}})
     ok = len(rng) == 1 and not rest
-    detail = "clip does not return a single Range"
+    detail = "resolve does not return a single Range"
+    args_ok = False
     if ok:
-        f = {x["name"]: q.arith(cl, x["op"]) for x in rng[0][1]["fields"]}
+        f = {x["name"]: q.arith(rz, x["op"]) for x in rng[0][1]["fields"]}
+        span_call = []
 
         def shape(t, fn, fld):
             if t[0] != "sub":
                 return False
-            m, s = t[1], t[2]
-            if s != ("place", ("param:1:parent.start",)):
+            m, s_ = t[1], t[2]
+            if leaf(s_) != ("param:1:self.0.start",):
                 return False
-            if m[0] != "call" or short(m[1]) != fn:
+            if m[0] != "call" or short(m[1]) != fn or len(m[3]) != 2:
                 return False
-            args = sorted(str(a) for a in m[3])
-            return args == sorted([str(("place", ("param:1:parent.%s" % fld,))), str(("place", ("param:2:child.%s" % fld,)))])
+            ls = [leaf(a) for a in m[3]]
+            mine = [x for x in ls if x == ("param:1:self.0.%s" % fld,)]
+            other = [x for x in ls if x and x != ("param:1:self.0.%s" % fld,)]
+            if len(mine) != 1 or len(other) != 1:
+                return False
+            o = other[0]
+            if len(o) != 1 or not (o[0].startswith("call:") and o[0].endswith("TrackedSpan::as_range.%s" % fld)):
+                return False
+            return True
         ok = shape(f["start"], "max", "start") and shape(f["end"], "min", "end")
         detail = "start=%s end=%s" % (q.arith_str(f["start"]), q.arith_str(f["end"]))
-    chk.require(ok, R_SPAN, "clip|(max(starts) - entry start, min(ends) - entry start)", cl.loc(), detail, detail)
+        # the tracked span clipped is the one handed to resolve
+        ars = [(bb, t) for bb, t in rz.calls() if (callee_def(t) or "").endswith("TrackedSpan::as_range")]
+        args_ok = len(ars) == 1 and q.all_roots(rz, ars[0][1]["args"][0], lambda r: q.is_param(r, "span"))
+    chk.require(ok and args_ok, R_SPAN, "ParsedSpan::resolve|clip(entry span, tracked span)", rz.loc(),
+                "the tracked span is not clipped against the entry's own span: %s (as_range of the span argument=%s)" % (detail, args_ok),
+                "clip(self.0, span.as_range())")
+    chk.require(ok, R_SPAN, "clip|(max(starts) - entry start, min(ends) - entry start)", rz.loc(), detail, detail)
     # TrackedSpan minted only from with_span
     ts = [a for a in q.aggregates_of(P, "okane_core::syntax::tracked::TrackedSpan") if q.not_test(a[0]) and not a[0].derived]
     ok = bool(ts)
